@@ -57,7 +57,7 @@ theorem k7a_of {tr : Trace} {endT : Int} (h : K7 Cfg.paper tr endT = true) {e : 
 /-- a datagram sent to a host that is up and is never closed is processed by it within 100 ms, or that delivery is the
 missing one -/
 theorem k7b_reach {tr : Trace} {endT : Int} {sd : SendE} {h : Nat} (hsd : sd ∈ sends tr) (hdst : dstOK sd.dst h = true)
-    (hup : upAt tr h sd.t = true) (hopen : neverClosed tr h = true) (hend : sd.t + 100 ≤ endT) :
+    (hup : upBefore tr h sd.t = true) (hopen : neverClosed tr h = true) (hend : sd.t + 100 ≤ endT) :
     (∃ e ∈ dlvs tr, e.h = h ∧ e.items = sd.items ∧ sd.t ≤ e.t ∧ e.t ≤ sd.t + 100)
     ∨ ∃ o ∈ missing Cfg.paper tr endT, o.t = sd.t := by
   by_cases hd : delivered Cfg.paper tr ⟨sd.d, sd.t, h, sd.items⟩ = true
@@ -75,7 +75,7 @@ theorem k7b_reach {tr : Trace} {endT : Int} {sd : SendE} {h : Nat} (hsd : sd ∈
     rw [List.mem_flatMap]
     refine ⟨sd, hsd, ?_⟩
     rw [List.mem_filterMap]
-    obtain ⟨u, hu, hu2, _⟩ := upAt_iff.mp hup
+    obtain ⟨u, hu, hu2, _⟩ := upBefore_iff.mp hup
     refine ⟨h, ?_, ?_⟩
     · unfold hostsOf
       rw [List.mem_map]
